@@ -201,19 +201,32 @@ def _surface_names(fn, bi, cache):
     return names
 
 
+class TokSet(set):
+    """tokens of an atom; `.own` are those of the atom itself, the rest are the names of the user variables read in its block
+    (kept only so that the spelling of a comparison between locals survives the expression builder)"""
+    own = frozenset()
+
+
+def _toks(s, fn, b, cache):
+    own = _tokens_of(s, fn)
+    t = TokSet(own | _surface_names(fn, b, cache))
+    t.own = frozenset(own)
+    return t
+
+
 def rust_atoms(fn):
     """(signature, token set) of every branch atom plus every comparison computed as a value"""
     out = []
     cache = {}
     for a, b, tb in atoms.all_atoms(fn):
         s = sig.sig(a, fn)
-        out.append((s, _tokens_of(s, fn) | _surface_names(fn, b, cache)))
+        out.append((s, _toks(s, fn, b, cache)))
     for bi, si, lhs, rv, st in fn.assignments():
         if rv.get("k") == "bin" and rv.get("op") in ("Eq", "Ne", "Lt", "Le", "Gt", "Ge"):
             e = fn.rvalue_expr(rv)
             for a in mir.bool_atoms(fn, e, True):
                 s = sig.sig(a, fn)
-                out.append((s, _tokens_of(s, fn) | _surface_names(fn, bi, cache)))
+                out.append((s, _toks(s, fn, bi, cache)))
     return out
 
 
@@ -228,9 +241,10 @@ def matches(c, s, toks):
             return False
     if c["cls"] == "ord" and s.rel not in ORD_RELS:
         return False
+    own = getattr(toks, "own", toks)
     for f in c["fields"]:
         alts = ALIAS.get(f.lower(), {f.lower()}) | {f.lower()}
-        if not (alts & toks):
+        if not (alts & own):
             return False
     sconsts = {x for x in s.consts if isinstance(x, int)}
     if s.lo is not None:
@@ -240,18 +254,20 @@ def matches(c, s, toks):
     if s.values:
         sconsts |= {v for v in s.values if isinstance(v, int)}
     # constants of range patterns (`2..=5`) reach the signature as spelled tokens
-    sconsts |= {int(t) for t in toks if isinstance(t, str) and t.lstrip("-").isdigit()}
+    sconsts |= {int(t) for t in own if isinstance(t, str) and t.lstrip("-").isdigit()}
     near = sconsts | {x + 1 for x in sconsts} | {x - 1 for x in sconsts}
     macro_vals = set(c.get("macro_values", {}).values())
+    by_value = False
     for n in c["names"]:
         nl = n.lower()
-        if nl in toks or n in s.names:
+        if nl in own or n in s.names:
             continue
         rawn = c.get("raw", {}).get(n)
-        if rawn and (rawn.lower() in toks or rawn in s.names):
+        if rawn and (rawn.lower() in own or rawn in s.names):
             continue
         mv = c.get("macro_values", {}).get(n)
         if mv is not None and mv in near:
+            by_value = True
             continue
         if s.variants and n in s.variants:
             continue
@@ -264,7 +280,8 @@ def matches(c, s, toks):
         if k not in near:
             return False
     locs = c["locals"]
-    if not c["fields"] and not c["names"]:
+    # a name recognised only by its value (Z_NO_FLUSH = 0) says nothing about the subject: then the C locals must be there
+    if not c["fields"] and (not c["names"] or by_value):
         for l in locs:
             alts = LOCAL_ALIAS.get(l.lower(), {l.lower()}) | {l.lower()}
             if not (alts & toks):
@@ -294,7 +311,13 @@ def structural(s, fn=None):
             calls.add(sig._short(x[1]))
         elif t in ("dc", "agg") and len(x) > 2 and x[2]:
             cnames.add(str(x[2]))
-    return {"rel": s.rel, "names": sorted(fields | cnames), "calls": sorted(calls), "consts": sorted(consts)}
+    out = {"rel": s.rel, "names": sorted(fields | cnames), "calls": sorted(calls), "consts": sorted(consts)}
+    # which variants / values an `is` / `in` atom selects is part of its meaning
+    if s.variants:
+        out["variants"] = sorted(map(str, s.variants))
+    if s.values:
+        out["values"] = sorted(map(str, s.values))
+    return out
 
 
 def find(c, sigs_toks):
